@@ -190,6 +190,7 @@ func c07Scenarios(tier string) []e1lib.Scenario {
 		for _, rd := range []string{"reader", "stderr"} {
 			for m := 0; m < 16; m++ {
 				if m != 0 {
+					add(stage.Cfg{Stage: "emit", Mode: "lift", Cap: cp, Mask: m, ErrRd: rd, Stop: -1, Interval: -1}) // frequency 0: no pacing
 					add(stage.Cfg{Stage: "emit", Mode: "lift", Cap: cp, Mask: m, ErrRd: rd, Stop: -1})
 					add(stage.Cfg{Stage: "unfold", Mode: "lift", Cap: cp, Mask: m << 1, ErrRd: rd, Stop: -1})
 				}
@@ -201,6 +202,9 @@ func c07Scenarios(tier string) []e1lib.Scenario {
 					// drained for ever would make the execution infinite: after cancel the generator may win
 					// the race against ctx.Done() any number of times)
 					add(stage.Cfg{Stage: "emit", Mode: "try", Cap: cp, Mask: m, ErrRd: rd, Stop: ca + 1, CancelAfter: ca})
+					if ca == 1 {
+						add(stage.Cfg{Stage: "emit", Mode: "try", Cap: cp, Mask: m, ErrRd: rd, Stop: ca + 1, CancelAfter: ca, Interval: -1})
+					}
 				}
 			}
 		}
